@@ -153,6 +153,40 @@ def add_step(sym, forest, parent_uid, cand_id, arch_set, existing):
     invariant(sym, ci, objs, "after")
 
 
+def add_keyed(sym, cand_id, key):
+    """Variants.add(variant, variant_id=key) - the way treeinfo files its top-level variants under their UID: a key that is taken by
+    another variant is refused and nothing changes; a free key is filled"""
+    ci = ComposeInfo()
+    first = Variant(ci)
+    first.id, first.uid, first.name, first.type, first.arches = "ServerTools", "Server-Tools", "first", "variant", set(["x86_64"])
+    ci.variants.add(first, variant_id="Server-Tools")
+    other = Variant(ci)
+    other.id, other.uid, other.name, other.type, other.arches = "Client", "Client", "client", "variant", set(["x86_64"])
+    ci.variants.add(other)
+    before = contents(ci.variants)
+    cand = Variant(ci)
+    cand.id = cand_id
+    cand.uid = {"ServerTools": "Server-Tools", "Client": "Client", "New": "New"}[cand_id]
+    cand.name = sym.str("name", 3, minlen=1)
+    cand.type = "variant"
+    cand.arches = set(["x86_64"])
+    try:
+        ci.variants.add(cand, variant_id=key)
+        raised = False
+    except ValueError:
+        raised = True
+    sym.cover("called")
+    taken = key in [k for k, v in before]
+    sym.check("taken-key-refused-free-key-filled", raised == taken)
+    if raised:
+        sym.check("refusal-leaves-container-unchanged", same_contents(contents(ci.variants), before))
+    else:
+        sym.cover("accepted")
+        sym.check("filed-under-the-key", ci.variants.variants[key] is cand)
+        sym.check("others-kept", same_contents([kv for kv in contents(ci.variants) if kv[0] != key], before))
+    sym.check("first-still-found-by-uid", ci["Server-Tools"] is first or (not raised and key == "Server-Tools"))
+
+
 def reload_consistent(sym, forest):
     """the same consistency after a write/read cycle"""
     ci, objs = build_forest(sym, forest, symbolic_types=True)
@@ -237,6 +271,8 @@ def jobs(tier, seed):
     for forest, parent, existing in [("chain", "Server-RT-Extra", "Server"), ("chain", "Server-RT", "Server-RT"), ("chain", "Server-RT-Extra", "Server-RT"),
                                      ("seven", "A-B-C", "A"), ("seven", "F", "A-B-C"), ("wide", None, "Server")]:
         out.append({"harness": "add_step", "params": {"forest": forest, "parent_uid": parent, "cand_id": None, "arch_set": 0, "existing": existing}})
+    for cand_id, key in (("ServerTools", "Server-Tools"), ("Client", "Client"), ("New", "New"), ("New", "Server-Tools"), ("ServerTools", "Server-Tools2")):
+        out.append({"harness": "add_keyed", "params": {"cand_id": cand_id, "key": key}})
     for forest in FORESTS:
         if forest != "empty":
             out.append({"harness": "reload_consistent", "params": {"forest": forest}})
@@ -254,7 +290,7 @@ def jobs(tier, seed):
 
 
 META = {
-    "expected_covers": {"add_step": ["called", "accepted"], "reload_consistent": ["reloaded"], "get_variants_filter": ["called"]},
+    "expected_covers": {"add_keyed": ["called", "accepted"], "add_step": ["called", "accepted"], "reload_consistent": ["reloaded"], "get_variants_filter": ["called"]},
     "assumptions": [
         "inductive step over a catalogue of consistent forests (0-7 variants, depth <= 3, built through the real add); the candidate's UID, name and type are "
         "arbitrary symbolic strings, its id and arch set come from pools that contain duplicates, invalid ids, foreign and empty arch sets; the parent position ranges over every node and the top level",
